@@ -49,8 +49,10 @@ def check_case(run, case, determinism=False):
             case['spec']['base'] = [list(x) for x in disk.base_rows['Grammar']][:8]; case['spec']['prince'] = [list(x) for x in disk.base_rows['Prince']][:8]
         brief = {'base': case['spec']['base'] if flags['folder'] == 'Grammar' else case['spec']['prince'], 'flags': case['flags'],
                  'pool': case['spec'].get('pool')}
-        for kind, k, msg in mon.problems[:3]:
+        nviol0 = len(run.violations)
+        for kind, k, msg in [x for x in mon.problems if x[0] == 'order'][:3]:
             run.violation(f'{kind}: {msg}', case, observed=[[p['key'], repr(p['prob'])] for p in mon.pops[max(0, k - 3):k + 1]])
+        internal = [x for x in mon.problems if x[0] != 'order']
         ties = 0
         prev = None
         probs_seen = {}
@@ -80,6 +82,12 @@ def check_case(run, case, determinism=False):
             probs_seen.setdefault(p['prob'], p['key'])
         if len(mon.pops) != total:
             run.ev('count_mismatch_seen_by_C02_oracle')
+        if internal:
+            # anomalies inside the queue object (heap content, max_probability field): reported as context of an observable violation, otherwise only counted
+            if len(run.violations) > nviol0:
+                run.violations[-1]['observed'] = {'observed': run.violations[-1].get('observed'), 'queue_internals': [f'{k_}: {m_}' for k_, _, m_ in internal[:3]]}
+            else:
+                run.ev('queue_internal_anomalies_without_observable_effect', len(internal))
         repeated = any(len(set(s)) < len(s) for s in ([oracles.tokens(b[0]) for b in brief['base']]))
         run.case((h(case),) if (ties or repeated) else None)
         if ties:
